@@ -50,16 +50,25 @@ def parse_and_transform(chk, repo, rule, modname, struct_name, transform_name, o
     pd = mod.func("parse_data")
     r = single_return(pd)
     ok = r is not None and norm(r) == f"to_dict({struct_name}.parse({pd.positional_params[0]}))"
+    if not ok:
+        t = norm(r) if r is not None else ""
+        other_struct = ".parse(" in t and struct_name not in t
+        no_to_dict = ".parse(" in t and "to_dict(" not in t
+        if not (other_struct or no_to_dict):
+            raise AnalysisError(f"{mod.relpath}:parse_data is {t[:80]}: not the recognised form to_dict({struct_name}.parse(data)); not decided")
     chk.require(ok, rule, f"{mod.relpath}:parse_data", f"parse_data = to_dict({struct_name}.parse(data))",
-                f"parse_data is {short(r, 70) if r is not None else None}", key=f"{modname}:parse_data")
+                f"parse_data is {short(r, 70) if r is not None else None}: parsed with another struct / without the to_dict conversion", key=f"{modname}:parse_data")
     op = mod.func(opener)
     flow = Flow(op)
     rets = [n for n in op.own_nodes() if isinstance(n, ast.Return)]
     e = flow.expand(rets[0].value) if len(rets) == 1 else None
     txt = norm(e) if e is not None else ""
     ok = txt == f"{transform_name}(parse_data({op.positional_params[0]}[{op.positional_params[1]}]))"
+    if not ok:
+        if not ("parse_data(" in txt and transform_name not in txt):
+            raise AnalysisError(f"{mod.relpath}:{opener} returns {txt[:100]}: not the recognised form {transform_name}(parse_data(mapper[path])); not decided")
     chk.require(ok, rule, f"{mod.relpath}:{opener}", f"{opener} = {transform_name}(parse_data(mapper[path]))",
-                f"{opener} returns {txt[:100]}", key=f"{modname}:{opener}")
+                f"{opener} returns {txt[:100]}: the parsed records do not go through {transform_name}", key=f"{modname}:{opener}")
     # the names resolve to the intended struct / transform
     rs = repo.resolve_module_name(mod, struct_name)
     rt = repo.resolve_module_name(mod, transform_name)
@@ -84,8 +93,9 @@ def record_type_dispatch(chk, repo, rule):
     pc = io.func("parse_chunk")
     txt = " ".join(norm(s) for s in pc.node.body)
     ok = "record_preamble.parse(content[:12]).record_type" in txt and "record_types.get(record_type)" in txt and "data_record[n_elements]" in txt and "parser.parse(content)" in txt
-    chk.require(ok, rule, f"{io.relpath}:parse_chunk", "the record type is read from the 12-byte preamble of the chunk and selects the struct repeated n_elements times",
-                "parse_chunk no longer selects the struct by the preamble's record type / repeats it n_elements times", key="parse_chunk:dispatch")
+    if not ok:
+        raise AnalysisError(f"{io.relpath}:parse_chunk: dispatch on the preamble's record type is not in the recognised form; not decided")
+    chk.ok(rule, f"{io.relpath}:parse_chunk", "the record type is read from the 12-byte preamble of the chunk and selects the struct repeated n_elements times")
 
 
 def variable_conversion(chk, repo, rule):
@@ -100,8 +110,27 @@ def variable_conversion(chk, repo, rule):
         a = [norm(x) for x in c.args]
         detail = norm(c)[:100]
         ok = norm(c.func) in ("xr.Variable", "xarray.Variable") and a[:3] == ["var.dims", "data", "var.attrs"]
-    chk.require(ok, rule, f"{xm.relpath}:to_variable", "xr.Variable(var.dims, data, var.attrs, encoding=...)", f"to_variable builds {detail}", key="to_variable:passthrough")
+    if not ok and not (len(rets) == 1 and isinstance(rets[0].value, ast.Call) and norm(rets[0].value.func) in ("xr.Variable", "xarray.Variable") and sorted(a[:3]) == sorted(["var.dims", "data", "var.attrs"])):
+        raise AnalysisError(f"{xm.relpath}:to_variable builds {detail}: not the recognised form; not decided")
+    chk.require(ok, rule, f"{xm.relpath}:to_variable", "xr.Variable(var.dims, data, var.attrs, encoding=...)", f"to_variable builds {detail}: dims/data/attrs are passed in the wrong positions", key="to_variable:passthrough")
     # non-Array data passes through as is; Array data is wrapped lazily
     txt = " ".join(norm(s) for s in tv.node.body)
     ok2 = "isinstance(var.data, Array)" in txt and "LazilyIndexedWrapper(var.data, lock)" in txt and "data = var.data" in txt
-    chk.require(ok2, rule, f"{xm.relpath}:to_variable", "Array data is wrapped lazily, other data passes through", "to_variable no longer wraps Array data / passes other data through", key="to_variable:wrap")
+    if not ok2:
+        raise AnalysisError(f"{xm.relpath}:to_variable: lazy wrapping of Array data is not in the recognised form; not decided")
+    chk.ok(rule, f"{xm.relpath}:to_variable", "Array data is wrapped lazily, other data passes through")
+
+
+def spec_compare(chk, rule, fi, spec, good, bad, key):
+    """three-way comparison of a function's normal form with a specification written as Python:
+    equal -> holds; same constructor skeleton, different scalar content -> violation; different shape -> analysis error"""
+    where = f"{fi.module.relpath}:{fi.qualname}"
+    try:
+        _, got = summarize(fi.node)
+        _, want = summarize_source(spec)
+    except Undecidable as e:
+        raise AnalysisError(f"{where} is outside the decidable fragment: {e}")
+    v = compare_paths(got, want)
+    if v == "incomparable":
+        raise AnalysisError(f"{where}: normal form {show_paths(got)[:200]} differs in shape from its specification; equivalence not decided")
+    return chk.require(v == "equal", rule, where, good, f"{bad}: {show_paths(got)[:200]}", key=key)
